@@ -30,7 +30,7 @@ from ..lin import Facts
 from ..flow import Flow, name_pred
 from .. import astq
 from ._c02_fh import FHInterp, Obj, TV, Mask, Sel, SymV, AlwaysRaises, exc_name, FH_PATH
-from ._c02_fh import run as irun
+from ._c02_fh import run as irun, no_result, rejects_for_sure
 
 SK = "sktime/forecasting/base/_sktime.py"
 C = Lin.sym("cutoff")
@@ -208,7 +208,7 @@ class PInterp(FHInterp):
             return Opq("m:" + e.func.attr, [recv] + list(v.args) + kw)
         return v
 
-    def _for(self, node, st, frame):
+    def _for_inner(self, node, st, frame):
         # elements of cv.split(y) are (train positions, test positions)
         it = self.ev(node.iter, st, frame)
         if isinstance(it, Opq) and it.tag == "cv.split":
@@ -222,7 +222,7 @@ class PInterp(FHInterp):
                 if o[0] == "return":
                     out.append((s, o))
             return out + [(after, ("fall",))]
-        return FHInterp._for(self, node, st, frame)
+        return FHInterp._for_inner(self, node, st, frame)
 
     # -- operators --------------------------------------------------------------------------------------
     def binop(self, op, a, b, st):
@@ -504,7 +504,7 @@ def r1_set_y_X(ctx, repo, k, fn):
         ys = [e for e in it.stores if e["obj"] is me and e["attr"] == "_y"]
         cs = [e for e in it.stores if e["obj"] is me and e["attr"] == "_cutoff"]
         if not rets:
-            ctx.violation("R1", cons + ":cutoff", "valid training data is rejected on every path", loc)
+            no_result(ctx, "R1", cons + ":cutoff", raises, "valid training data is rejected on every path", loc)
             continue
         if len(ys) != 1 or not isinstance(ys[0]["val"], Arr):
             ctx.undecided("R1", cons + ":stored-y", "stored training series not interpretable: %r" % ([e["val"] for e in ys],), loc)
@@ -849,8 +849,15 @@ def r2_dispatch(ctx, repo, bw):
         f_in, f_out = it.make_fh(Sel(STEPS, m_in), rel), it.make_fh(Sel(STEPS, m_out), rel)
         want_out, want_in = Opq("out-of-sample-forecast", [f_out]), Opq("in-sample-forecast", [f_in])
         if raises:
-            ctx.violation("R2", cons + ":raises", "a valid horizon makes the dispatch raise (%s at line %s)"
-                          % (exc_name(raises[0][1]) or "exception", getattr(raises[0][1], "lineno", "?")), loc)
+            # certain if the callee chain raises for sure and the only assumptions on the trace are the horizon's own
+            # all-in / all-out predicates (each satisfiable by some valid horizon)
+            what = "a valid horizon makes the dispatch raise (%s at line %s)" % (
+                exc_name(raises[0][1]) or "exception", getattr(raises[0][1], "lineno", "?"))
+            certain = all(r.inner and all((all_form(pv) or ("?",))[0] == "all" for pv, _, _ in it.path_of(r[0])) for r in raises)
+            if certain:
+                ctx.violation("R2", cons + ":raises", what, loc)
+            else:
+                no_result(ctx, "R2", cons + ":raises", raises, what, loc)
             continue
         if len(rets) < 3:
             ctx.undecided("R2", cons, "expected the three cases all-out / all-in / mixed, found %d returning paths" % len(rets), loc)
@@ -1001,8 +1008,11 @@ def rule_r3(ctx, repo):
     it = PInterp(repo)
     rets, raises, _ = irun(it, m, f, {"fh": it.make_fh(STEPS, True)})
     vals = _distinct([v for _, v in rets])
-    ctx.check((vals == [STEPS.shift(-1)]) if vals and all(isinstance(v, Vec) for v in vals) else (None if vals else False), "R3",
-              "_reduce._check_fh", "window offsets == steps - 1", "window offsets are %r, expected steps - 1" % (vals,), ctx.loc(m, f))
+    if not vals:
+        no_result(ctx, "R3", "_reduce._check_fh", raises, "a relative out-of-sample horizon is rejected on every path", ctx.loc(m, f))
+    else:
+        ctx.check((vals == [STEPS.shift(-1)]) if all(isinstance(v, Vec) for v in vals) else None, "R3",
+                  "_reduce._check_fh", "window offsets == steps - 1", "window offsets are %r, expected steps - 1" % (vals,), ctx.loc(m, f))
     # statsmodels: predict(start, end)
     sm = repo.cls("sktime/forecasting/base/adapters/_statsmodels.py:_StatsModelsAdapter")
     for rel in (True, False):
